@@ -279,7 +279,7 @@ func (d *Decoder) unmarshal(val reflect.Value, tagType byte) error {
 			return errors.New("cannot parse TagIntArray to " + vt.String() + ", length not match")
 		} else if k := vt.Kind(); k != reflect.Slice && k != reflect.Array {
 			return errors.New("cannot parse TagIntArray to " + vt.String() + ", it must be a slice")
-		} else if tk := val.Type().Elem().Kind(); tk != reflect.Int && tk != reflect.Int32 {
+		} else if tk := val.Type().Elem().Kind(); tk != reflect.Int && tk != reflect.Int32 && tk != reflect.Uint32 {
 			return errors.New("cannot parse TagIntArray to " + vt.String())
 		}
 
@@ -292,7 +292,11 @@ func (d *Decoder) unmarshal(val reflect.Value, tagType byte) error {
 			if err != nil {
 				return err
 			}
-			buf.Index(i).SetInt(int64(value))
+			if elem := buf.Index(i); elem.Kind() == reflect.Uint32 {
+				elem.SetUint(uint64(uint32(value)))
+			} else {
+				elem.SetInt(int64(value))
+			}
 		}
 		if vt.Kind() == reflect.Slice {
 			val.Set(buf)
